@@ -361,7 +361,7 @@ def process_item(asm, header_line, tmpl_line):
     # header is up to first option word starting with known flags
     strs_start = rest.find(' sub ')
     opts = ''
-    for flag in (' pubfields', ' sub ', ' keepderive'):
+    for flag in (' pubfields', ' sub ', ' keepderive='):
         k = rest.find(flag)
         if k >= 0:
             opts = rest[k:] if not opts or k < rest.find(opts) else opts
@@ -372,6 +372,16 @@ def process_item(asm, header_line, tmpl_line):
     src = asm.src(rel)
     it = src.find_item(header)
     text = strip_attrs_and_docs(it['text'])
+    mk = re.search(r' keepderive=(\S+)', rest)
+    derive_line = ''
+    if mk:
+        # R7 variant: keep the listed derives if (and only if) the source item derives them
+        full = src.text[src.item_start_with_attrs(it['start']):it['start']]
+        have = set()
+        for dm in re.finditer(r'#\[derive\(([^)]*)\)\]', full):
+            have |= {x.strip() for x in dm.group(1).split(',')}
+        keep = [x for x in mk.group(1).split(',') if x in have]
+        derive_line = '#[derive(%s)]\n' % ', '.join(keep) if keep else ''
     rec = dict(file=rel, item=header, line=it['line'],
                sha256=hashlib.sha256(it['text'].encode()).hexdigest())
     asm.rewrites.append(dict(rule='R7', file=rel, line=it['line'], what='item %s: attributes/comments dropped' % header))
@@ -415,6 +425,8 @@ def process_item(asm, header_line, tmpl_line):
             raise ScanError('lost anchor: item %s: %r not found' % (header, old))
         text = text.replace(old, new)
         asm.rewrites.append(dict(rule='R12', file=rel, line=it['line'], what='item %s: %r -> %r' % (header, old, new)))
+    if derive_line:
+        asm.emit(derive_line.rstrip('\n'), ('src', rel, it['line']))
     asm.emit_src(text, rel, it['line'])
     asm.items.append(rec)
 
